@@ -877,7 +877,9 @@ fn main() {
         let mut fns = vec![];
         for f in ["mutex.rs", "backoff.rs", "signal.rs"] {
             let text = fs::read_to_string(format!("{}/{}", args[2], f)).unwrap();
-            aut::collect(f, &syn::parse_file(&text).unwrap(), &mut fns);
+            let pf = syn::parse_file(&text).unwrap();
+            aut::learn_names(f, &pf);
+            aut::collect(f, &pf, &mut fns);
         }
         let called = aut::called_names(&fns);
         for f in &fns {
@@ -937,6 +939,7 @@ fn main() {
     {
         let mut fns = vec![];
         for f in ["mutex.rs", "backoff.rs", "signal.rs"] {
+            aut::learn_names(f, &parsed[f]);
             aut::collect(f, &parsed[f], &mut fns);
         }
         let called = aut::called_names(&fns);
